@@ -1,11 +1,15 @@
 import BSModel.Driver.Util
 import BSModel.Model.Tokenizer
+import BSModel.Model.WriterText
+import BSModel.Driver.C04
 /-! protocol (tokenizer model, `Model/Tokenizer.lean`); strings are comma code point lists, `-` empty, `~` None:
   `needs <text>`            → `;`-separated queries the model will put to its parameters on this text:
                                `u:<raw attribute value>` (html.unescape), `l:<ASCII-lowered name>` (str.lower), `e:<entity name>`
   `tokens <text> <table>`   → the callback stream in the recorder's form (`ST|name|line|col|k=v&k=v;ET|name;D|cps;…`), `-` when
                                empty, `error` where the parser raises AssertionError, `stuck` (never: proved unreachable)
   `spans <text> <table>`    → `KIND:lo:hi;…|rest=<unconsumed length>|cd=<cdata_elem or ->|flag`   (KIND `SK` = consumed without callback)
+  `write <void> <doc> <choices>` → `<Writable 0/1>|<writeText>|<derivedPos of the elements in document order, l.c,l.c,…>`
+                               (void/doc/choices as for `c04 emit`)
   `ws`                      → the model's `\s` set;   `ci <p>` → code points matching pattern letter `p` under re.I (below 0x3000)
   table = `;`-separated `u:<k>=<v>`, `l:<k>=<v>`, `e:<k>=<v|~>`; absent `u`/`l` keys map to themselves -/
 namespace BS.Drv.TK
@@ -94,6 +98,16 @@ def handle : List String → String
     let sp := (spans 0 r.evs).map fun x => s!"{kind x.1.tok}:{x.2.1}:{x.2.2}"
     let body := if sp.isEmpty then "-" else ";".intercalate sp
     s!"{body}|rest={r.st.s.length}|cd={match r.st.cd with | none => "-" | some c => showL c}|{showFlag r.flag}"
+  | ["write", void, doc, choices] =>
+    let voidS := (void.drop 5).toString
+    let voids := (splitNE "." voidS).map ofS
+    let iv : BS.Builder.Name → Bool := fun n => voidS == "*" || voids.contains n
+    let toks := splitNE ";" doc
+    let (ds, pos, _) := C04.parseForest [] 0 toks.length toks
+    let c := C04.mkChoices ds pos choices
+    let w := decide (BS.WriterText.Writable iv c ds)
+    let ps := pos.map fun e => let q := BS.WriterText.derivedPos iv c ds e.1; s!"{q.1}.{q.2}"
+    s!"{bit w}|{showL (BS.WriterText.writeText iv c ds)}|{if ps.isEmpty then "-" else ",".intercalate ps}"
   | ["ws"] => showL ((List.range 0x3100).filter isWs)
   | ["ci", p] =>
     match p.toNat? with
